@@ -358,6 +358,43 @@ _AMEND = {
              "the group totals sum, and with several keys the indicator columns are re-ordered by the keys so that column i is row i of "
              "the key-sorted table;")],
 }
+_AMEND2 = {
+    "C01": [("for every office class and every requested aggregate list.",
+             "for every office class and every requested aggregate list; (g) the caller's feed frame is never written to, so derived result "
+             "columns are those of this call's counts (a feed object refreshed in place and passed again would otherwise report the previous poll).")],
+    "C03": [("Each of the five sites can be broken without changing a pinned test number.",
+             "Every group with outstanding units keeps a row in the matching of bounds and gaussian models (restated from C15.R3: a group that "
+             "falls out is filled with 0 and reports only its reporting units' votes). Each of these sites can be broken without changing a pinned test number.")],
+    "C05": [("The covariate-free model is never run by the suite.",
+             "The solver call of fit_model is bound against the INSTALLED solver's signature: the caller's tau and weights, the model's own lambda and "
+             "intercept setting, and no regularisation of the intercept. The covariate-free model is never run by the suite.")],
+    "C08": [("called contests zero - which",
+             "called contests zero, and in order-statistic mode a called contest counts as its called outcome in every draw before the national totals "
+             "are ranked (F35) - which")],
+    "C10": [("is that of the same group (row signatures).",
+             "is that of the same group (row signatures); a unit the feed gives no expected vote gets a number when the feed is joined, so that it "
+             "cannot carry a NaN into the bootstrap model's clip bounds and from there, through the 0/1 group products, into every group (F32).")],
+    "C12": [("are never mutated in place.",
+             "are never mutated in place; the local preprocessed file that later runs read back holds the columns that were loaded, not this run's "
+             "derived ones (F34); the national-summary table is built from the estimates of that summary call alone.")],
+    "C13": [("names every request parameter its value depends on.",
+             "names every request parameter its value depends on; no model attribute that is carried from one per-level / per-estimand call to the "
+             "next (memo, accumulator) depends on a request-dependent parameter, where parameters are classified through the call sites (the conformal "
+             "training fraction is level-dependent).")],
+    "C19": [("inclusive filters on the combined list;",
+             "inclusive filters on every route from a page's versions to the result; the recursion condition, evaluated with short-circuit order over "
+             "(truncated, page empty, start unset, oldest >= start), continues at least while needed and never indexes an empty page - a page of "
+             "delete markers neither fails nor ends the listing (F31);")],
+    "C11": [("at every non-classification level (new groups are created and filled),",
+             "at every non-classification level (new groups are created and filled; for every return of the gaussian aggregate function, the "
+             "shortcut for 'nothing outstanding' included),")],
+    "C06": [("the ranks are the statement's own formulas;",
+             "the ranks are the statement's own formulas; every quotient by a group turnout total is nan_to_num(x / total), so a group with zero "
+             "predicted turnout has margin 0, not NaN;")],
+}
+for _pid, _pairs in _AMEND2.items():
+    _AMEND.setdefault(_pid, [])
+    _AMEND[_pid] = _AMEND[_pid] + _pairs
 for _pid, _pairs in _AMEND.items():
     for _old, _new in _pairs:
         assert _old in CLAIMS[_pid]["level"], (_pid, _old)
